@@ -54,6 +54,7 @@ def instances(tier, seed):
     add("rt:full:bond:ortho:bead-model-masses-no-element", style='full', N=2, terms={'bond': 1}, tilt='zero', c0=1, type_table='beads', cost=30)
     add("rt:atomic:no-terms:bead-model-masses-no-element", style='atomic', N=2, terms={}, tilt='zero', c0=None, type_table='beads', cost=10)
     add("rt:full:bond:ortho:history:written-before-with-other-labels", style='full', N=2, terms={'bond': 1}, tilt='zero', c0=0, history='written-before-with-other-labels', cost=30)
+    add("rt:full:bond:barely-tilted-cell", style='full', N=2, terms={'bond': 1}, tilt='tiny', c0=0, cost=20)
     add("dispatch:path-and-file", family='dispatch', cost=3)
     add("wide-fields", family='wide', cost=2)
     add("many-types", family='many', cost=2)
@@ -115,6 +116,11 @@ def build(ctx, p):
         cx, cy, cz = [ctx.real(n_, 1, 100) for n_ in ('cx', 'cy', 'cz')]
         if p['tilt'] == 'sym':
             xy, xz, yz = [ctx.real(n_, -50, 50) for n_ in ('xy', 'xz', 'yz')]
+        elif p['tilt'] == 'tiny':
+            # a barely tilted cell (a = b = 25, c = 20, beta = 90.0004 degrees): the tilt is 175 times the printed precision and 7e-6 of the
+            # longest edge; concrete, so that it stays decidable whatever norm / tolerance arithmetic the code applies to the cell
+            cx, cy, cz = 25.0, 25.0, 20.0
+            xy, xz, yz = 0.0, -0.000175, 0.0
         else:
             xy = xz = yz = 0.0
         cell = [[cx, 0.0, 0.0], [xy, cy, 0.0], [xz, yz, cz]]
@@ -247,7 +253,7 @@ def body(ctx, p):
             for key, val in (('xlo xhi', cell[0][0]), ('ylo yhi', cell[1][1]), ('zlo zhi', cell[2][2])):
                 lo, hi = hdr[key]
                 ctx.require('box bounds are 0 and the cell length', AND(feq(ctx, lo, 0), feq(ctx, hi, val)), detail=dict(key=key))
-            if p['tilt'] == 'sym':
+            if p['tilt'] in ('sym', 'tiny'):
                 tl = hdr.get('tilt')
                 nz = OR(cell[1][0] != 0, cell[2][0] != 0, cell[2][1] != 0)
                 if tl is None:
